@@ -13,6 +13,8 @@ type IfUnless struct {
 	originalTs    map[string][]base.T
 	narrowTs      map[string][]base.T
 	ifNarrowTs    map[string][]base.T
+	conjunctCount int
+	hasAnd        bool
 }
 
 func NewIfUnless(conditionType string) DynamicEvaluator {
@@ -46,6 +48,8 @@ func (i *IfUnless) setConditionalCtx(
 ) error {
 
 	classT := i.convertClassNameToTobject(class)
+
+	i.conjunctCount++
 
 	var isNarrow bool
 
@@ -165,7 +169,41 @@ func (i *IfUnless) beforeEval(
 	return nil
 }
 
+// getBackupContext scans one condition. The branches after it see the negation of the
+// condition; the negation of a conjunction of several tests admits every variant again,
+// so such a condition contributes nothing to what later branches exclude.
 func (i *IfUnless) getBackupContext(
+	e *Evaluator,
+	p parser.Parser,
+	ctx context.Context,
+) ([]func(), error) {
+
+	narrowTsBefore := make(map[string][]base.T, len(i.narrowTs))
+	for key, variants := range i.narrowTs {
+		narrowTsBefore[key] = variants
+	}
+
+	i.conjunctCount = 0
+	i.hasAnd = false
+
+	zaoriks, err := i.scanCondition(e, p, ctx)
+
+	if i.conditionType == "if" && i.hasAnd && i.conjunctCount > 1 {
+		i.narrowTs = narrowTsBefore
+	}
+
+	return zaoriks, err
+}
+
+func (i *IfUnless) isConnector(t *base.T) bool {
+	if t.IsTargetIdentifier("&&") {
+		i.hasAnd = true
+	}
+
+	return t.IsTargetIdentifiers([]string{"&&", "||"})
+}
+
+func (i *IfUnless) scanCondition(
 	e *Evaluator,
 	p parser.Parser,
 	ctx context.Context,
@@ -202,7 +240,7 @@ func (i *IfUnless) getBackupContext(
 				return zaoriks, err
 			}
 
-			if nextT.IsTargetIdentifiers([]string{"&&", "||"}) {
+			if i.isConnector(nextT) {
 				continue
 			}
 
@@ -230,7 +268,7 @@ func (i *IfUnless) getBackupContext(
 		}
 
 		// a && b
-		if nextT.IsTargetIdentifiers([]string{"&&", "||"}) {
+		if i.isConnector(nextT) {
 			continue
 		}
 
@@ -241,7 +279,7 @@ func (i *IfUnless) getBackupContext(
 			}
 
 			// a.empty? && b
-			if nextT.IsTargetIdentifiers([]string{"&&", "||"}) {
+			if i.isConnector(nextT) {
 				continue
 			}
 
@@ -348,7 +386,7 @@ func (i *IfUnless) getBackupContext(
 				}
 			}
 
-			if nextT.IsTargetIdentifiers([]string{"&&", "||"}) {
+			if i.isConnector(nextT) {
 				continue
 			}
 
@@ -363,7 +401,7 @@ func (i *IfUnless) getBackupContext(
 				}
 			}
 
-			if nextT.IsTargetIdentifiers([]string{"&&", "||"}) {
+			if i.isConnector(nextT) {
 				continue
 			}
 		}
